@@ -163,6 +163,20 @@ Theorem C11_chunking_independent :
     s_writes (serve echo limit cs1) = s_writes (serve echo limit cs2).
 Proof. exact serve_chunking_independent. Qed.
 
+(* The same for EVERY client byte stream, well-formed script or not: two splits of the same bytes into reads give the
+   same messages, the same final error and the same bytes written (so the malformed-input behaviour observed all-at-once
+   is the behaviour byte-by-byte). *)
+Theorem C11_chunking_independent_any_stream :
+  forall (echo : bool) (limit : option nat) (cs1 cs2 : chunks),
+    wf_chunks cs1 -> wf_chunks cs2 -> concat cs1 = concat cs2 -> Forall byte (concat cs1) ->
+    s_msgs (serve echo limit cs1) = s_msgs (serve echo limit cs2) /\
+    s_final (serve echo limit cs1) = s_final (serve echo limit cs2) /\
+    s_writes (serve echo limit cs1) = s_writes (serve echo limit cs2).
+Proof.
+  intros echo limit cs1 cs2 W1 W2 Hc HB.
+  exact (serve_same_stream echo (fuel_of cs1) cs1 cs2 limit (fuel_of_ok cs1) (conj W1 (conj W2 Hc)) HB).
+Qed.
+
 (* ---- blocking and non-blocking receive ---- *)
 
 (* The non-blocking frame read: with at least one byte available (k >= 1; 1, 2 or more) and a peer that has not closed,
@@ -276,6 +290,7 @@ Print Assumptions C11_drop_sends_close.
 Print Assumptions C11_server_drop.
 Print Assumptions C11_server_drop_at_once.
 Print Assumptions C11_chunking_independent.
+Print Assumptions C11_chunking_independent_any_stream.
 Print Assumptions C11_frame_nb_agrees.
 Print Assumptions C11_nb_agrees.
 Print Assumptions C11_nb_nothing_yet.
